@@ -94,3 +94,16 @@ claim("C17", "proof",
       "effects of fma contraction are not control flow), trace hook, harness.",
       "Coq proof (loop invariants over fuel-indexed model) + trace-replay correspondence",
       "DESIGN.md section 6, C17")
+
+claim("C09", "proof",
+      "Coq theorems: View::split partitions the voxels exactly for every axis mask; Heightmap::recurse (skip / pixel pass / "
+      "fill / split, upper half first) leaves each pixel at the brute-force column maximum for every sound interval oracle; "
+      "the XY pre-partition is disjoint and covering, so the image is the same for every worker count and order.  Tie: "
+      "chains of View::split<A> on generated grids vs the extracted model (corner, size exact).  Oracle: Heightmap::render "
+      "with 1, 3, 8 workers vs a brute-force loop over all voxel centres (same optimised tree), every pixel; grid coverage / "
+      "resolution; split bounds contain their voxel centres.",
+      "Trusted: Coq kernel, extraction, harness; the soundness premise of the interval oracle is C02 + C05; float bounds of "
+      "split views are checked, not modelled; true thread interleavings are reduced to per-region sequentialisation via the "
+      "frame lemma (each region reads and writes only its own pixels).",
+      "Coq proof (induction on fuel / view splitting, frame lemmas) + differential split correspondence + brute-force oracle",
+      "DESIGN.md section 6, C09")
